@@ -24,9 +24,8 @@ Init == /\ kind \in GenKinds /\ prog = <<>> /\ phase = "build" /\ mode = "-" /\ 
 
 Mutate ==
   /\ phase = "build" /\ Len(prog) < Depth
-  /\ \E m \in Muts[kind] :
-       /\ Len(prog) = 1 => CanFollow(kind, prog[1], m)
-       /\ prog' = Append(prog, m)
+  /\ \E m \in (IF Len(prog) = 0 THEN Muts[kind] ELSE Next2(kind, prog[1])) :
+       prog' = Append(prog, m)
   /\ UNCHANGED <<kind, phase, mode, outcome>>
 
 (* Parse: the artifact is handed to the entry points of its kind in one of the modes;
